@@ -1,7 +1,7 @@
 // ======================================================================================
 // C19: constructors and socket-address conversions keep every endpoint in its role.
 // ======================================================================================
-use std::net::SocketAddr;
+pub use std::net::SocketAddr;
 
 pub open spec fn v2_from_sockets_spec(s: SocketAddr, d: SocketAddr) -> crate::v2::Addresses {
     match (s, d) {
